@@ -31,11 +31,17 @@ def ops_for(rng, sectors, extra, regions, full, nseq=25):
         o = rng.choice(pts)
         ops.append(rng.choice([{"op": "seek", "off": o, "whence": 0}, {"op": "seek", "off": o - size, "whence": 2},
                                {"op": "seek", "off": rng.choice([-2049, -17, -1, 0, 1, 15, 2048]), "whence": 1}]))
+        if rng.random() < 0.5:      # a positional read in between must leave the cursor alone (inside, at and past the end, empty)
+            ops.append({"op": "readat", "off": rng.choice(pts + [size, size + 1, size + 5000]), "n": rng.choice([0, 1, 2048, 5000])})
         ops.append({"op": "read", "n": rng.choice(lens + [512, 3 * S, 70000])})
         if rng.random() < 0.4:
             ops.append({"op": "read", "n": rng.choice(lens)})
     ops += [{"op": "seek", "off": 0, "whence": 0}] + [{"op": "read", "n": 512}] * 6     # the server's own access pattern (512-byte buffer reads)
     ops += [{"op": "seek", "off": 0, "whence": 2}, {"op": "read", "n": 16}]
+    # the underlying file ends early (half of what the view asks for, then io.EOF or an error) during some calls
+    for o in ops:
+        if o["op"] in ("read", "readat") and o.get("n", 0) > 1 and rng.random() < 0.12:
+            o["under"] = rng.choice(["eof", "err"])
     return ops
 
 
